@@ -21,7 +21,7 @@
 #define TG_MAXATTR 3
 #define TG_MAXRANK 5
 #define TG_MAXFLD  4
-#define TG_NAME    48
+#define TG_NAME    320 /* room for the longest legal names (vgroup names are unbounded, SD / GR names 256) */
 
 typedef struct {
     char  name[TG_NAME];
@@ -130,6 +130,7 @@ typedef struct {
 #define TG_F_ALL    1023
 #define TG_F_SPECIAL 1024 /* (not in TG_F_ALL) float32 / float64 values - SDS data, dimension scales, fill values, attributes, vdata
                              fields, images - include NaN (quiet / signalling, both signs, payloads), +-Inf, -0.0, denormals, +-FLT_MAX / DBL_MAX */
+#define TG_F_ADVNAMES 2048 /* names / classes of USER objects adversarial w.r.t. the library's internal names (not part of TG_F_ALL) */
 
 static const int32 TG_NTS[] = {DFNT_INT8, DFNT_UINT8, DFNT_INT16, DFNT_UINT16, DFNT_INT32, DFNT_UINT32,
                                DFNT_FLOAT32, DFNT_FLOAT64, DFNT_CHAR8, DFNT_UCHAR8};
@@ -208,6 +209,8 @@ static void tg_rand_layout(tg_layout_t *l, int rank, const int32 *dims, int allo
         for (i = 0; i < rank; i++) l->chunk[i] = (int32)hk_range(1, dims[i] > 1 ? dims[i] : 1);
     }
 }
+
+static void tg_adversarial(tg_spec_t *s);
 
 static void tg_random(tg_spec_t *s, int features)
 {
@@ -341,6 +344,233 @@ static void tg_random(tg_spec_t *s, int features)
         s->nfdesc  = hk_chance(25) ? (int)hk_range(1, 2) : 0;
     }
     s->lonepal = (features & TG_F_PAL) && hk_chance(10);
+    if (features & TG_F_ADVNAMES) tg_adversarial(s);
+}
+
+/* ------------------------------------------------------------------------------------------------ adversarial names
+ *
+ * hrepack (and hdiff, hdp, the library itself) decide from NAMES and CLASSES which vgroups / vdatas are the library's own
+ * bookkeeping objects.  With TG_F_ADVNAMES the names and classes of the USER objects are drawn from the family around
+ * those tables: an internal name placed in the other field, an internal name plus a suffix, a proper prefix, another
+ * case, the empty string, the longest legal names, names containing the separators of hrepack's option syntax.
+ */
+static const char *TG_INTERNAL[] = {_HDF_ATTRIBUTE, _HDF_VARIABLE, _HDF_DIMENSION, _HDF_UDIMENSION, DIM_VALS, DIM_VALS01, _HDF_CDF, GR_NAME,
+                                    RI_NAME, RIGATTRNAME, RIGATTRCLASS, _HDF_CHK_TBL_CLASS, _HDF_SDSVAR, _HDF_CRDVAR, "fakeDim", "fakeDim0", "VALUES", FILL_ATTR};
+#define TG_NINTERNAL ((int)(sizeof TG_INTERNAL / sizeof TG_INTERNAL[0]))
+
+/* is this vdata / vgroup class one of the library's own (exact list, independent of hrepack's and of Visinternal)? */
+static int tg_internal_class(const char *c);
+
+/* the classes of the objects the library creates as lone vdatas / as vgroups (attribute, dimension, variable, file, image
+   bookkeeping, chunk tables): a user object carrying one of them cannot be told from the library's own by its class.
+   (_HDF_SDSVAR / _HDF_CRDVAR only ever mark a vdata INSIDE a variable's vgroup.) */
+static int tg_reserved_class(const char *c)
+{
+    static const char *R[] = {_HDF_ATTRIBUTE, _HDF_VARIABLE, _HDF_DIMENSION, _HDF_UDIMENSION, DIM_VALS, DIM_VALS01, _HDF_CDF, GR_NAME, RI_NAME, RIGATTRNAME, RIGATTRCLASS};
+    unsigned i;
+    for (i = 0; i < sizeof R / sizeof R[0]; i++)
+        if (strcmp(c, R[i]) == 0) return 1;
+    return strncmp(c, _HDF_CHK_TBL_CLASS, strlen(_HDF_CHK_TBL_CLASS)) == 0;
+}
+
+/* longest names the generator asks for.  The library accepts one character more for each of them (VSNAMELENMAX = 64 for vdata
+   names / classes and the names of vgroup and vdata attributes, H4_MAX_NC_NAME = 256 for data set and dimension names, any length
+   for image names), but hrepack's name buffers are one byte short for exactly those values (findings hrepack-vs-name-buffer,
+   hrepack-sd-name-buffer, gr-name-unbounded): raise to 64 / 256 / 256 (-DTG_VSNAME_MAX=64 ...) once they are repaired */
+#ifndef TG_VSNAME_MAX
+#define TG_VSNAME_MAX 63
+#endif
+#ifndef TG_SDNAME_MAX
+#define TG_SDNAME_MAX 255
+#endif
+#ifndef TG_GRNAME_MAX
+#define TG_GRNAME_MAX 255
+#endif
+
+#define TG_ADV_EMPTY   1  /* the empty string is a legal value of this field */
+#define TG_ADV_EXACT   2  /* an internal name itself is allowed */
+#define TG_ADV_COMMA   4  /* ',' allowed (not in vdata field names) */
+#define TG_ADV_LEADSP  8  /* may begin with a blank (SDcreate replaces such names) */
+#define TG_ADV_GRNAME  16 /* GR_NAME itself allowed (the GR interface finds ITS vgroup by that name) */
+
+static int tg_adv_kinds[10]; /* statistics: how often each variant was produced */
+
+/* one adversarial string of at most `safemax` characters (`hardmax` >= safemax: longest value the library accepts; chosen rarely).
+   Returns the variant: 0 exact, 1 suffix, 2 proper prefix, 3 case, 4 empty, 5 long, 6 separators, 7 embedded, 8 tame */
+static const char *tg_adv_focus; /* when set: the internal name that matters most for the field being generated (half of the draws) */
+static int tg_adv_string(char *out, int safemax, int hardmax, int allow, const char *tame)
+{
+    static const char *suffix[] = {"1", ".1", "_user", "-index", "0", "N", " ", ".0", "x"};
+    static const char  seps[]   = {' ', ',', ':', ' ', ':'};
+    const char *base = TG_INTERNAL[hk_range(0, TG_NINTERNAL - 1)];
+    int         v    = (int)hk_range(0, 99), variant, n, i;
+    if (tg_adv_focus && hk_chance(50)) base = tg_adv_focus;
+    char        tmp[TG_NAME];
+    if (safemax > TG_NAME - 1) safemax = TG_NAME - 1;
+    if (hardmax > TG_NAME - 1) hardmax = TG_NAME - 1;
+    variant = v < 14 ? 0 : v < 34 ? 1 : v < 46 ? 2 : v < 58 ? 3 : v < 63 ? 4 : v < 70 ? 5 : v < 85 ? 6 : v < 90 ? 7 : 8;
+    if (variant == 0 && !(allow & TG_ADV_EXACT)) variant = 1;
+    if (variant == 4 && !(allow & TG_ADV_EMPTY)) variant = 2;
+    switch (variant) {
+        case 0: snprintf(out, TG_NAME, "%s", base); break;
+        case 1: snprintf(out, TG_NAME, "%s%s", base, suffix[hk_range(0, 8)]); break;
+        case 2: n = (int)strlen(base); snprintf(out, TG_NAME, "%.*s", (int)(hk_chance(60) ? n - 1 : hk_range(1, n - 1)), base); break;
+        case 3:
+            snprintf(out, TG_NAME, "%s", base); n = (int)strlen(out);
+            if (hk_chance(50)) { /* one letter */
+                int tries = 0; i = (int)hk_range(0, n - 1);
+                while (tries++ < 20 && !((out[i] | 32) >= 'a' && (out[i] | 32) <= 'z')) i = (i + 1) % n;
+                out[i] ^= 32;
+            }
+            else { int up = hk_chance(50); for (i = 0; i < n; i++) if ((out[i] | 32) >= 'a' && (out[i] | 32) <= 'z') out[i] = (char)(up ? (out[i] & ~32) : (out[i] | 32)); }
+            if (strcmp(out, base) == 0) strcat(out, "_"); /* no letter to change */
+            break;
+        case 4: out[0] = 0; break;
+        case 5:
+            n = hk_chance(25) ? hardmax : hk_chance(50) ? safemax : safemax - 1;
+            if (n < 1) n = 1;
+            snprintf(out, TG_NAME, "%s", hk_chance(50) ? base : tame);
+            for (i = (int)strlen(out); i < n; i++) out[i] = (char)('a' + i % 26);
+            out[n] = 0;
+            break;
+        case 6: {
+            const char *b = hk_chance(60) ? base : tame; char c = seps[hk_range(0, 4)]; int pos;
+            if (c == ',' && !(allow & TG_ADV_COMMA)) c = ':';
+            n = (int)strlen(b); pos = (int)hk_range((allow & TG_ADV_LEADSP) || c != ' ' ? 0 : 1, n);
+            snprintf(out, TG_NAME, "%.*s%c%s", pos, b, c, b + pos);
+            if (hk_chance(25)) { char c2 = seps[hk_range(0, 4)]; if (c2 == ',' && !(allow & TG_ADV_COMMA)) c2 = ' '; snprintf(tmp, sizeof tmp, "%s%cz", out, c2); snprintf(out, TG_NAME, "%s", tmp); }
+            break;
+        }
+        case 7: snprintf(out, TG_NAME, "%s%s", hk_chance(50) ? "x" : "my", base); break;
+        default: snprintf(out, TG_NAME, "%s", tame); break;
+    }
+    if ((int)strlen(out) > hardmax) out[hardmax] = 0;
+    if (!(allow & TG_ADV_GRNAME) && strcmp(out, GR_NAME) == 0) strcat(out, "_"), variant = 1;
+    if (!(allow & TG_ADV_EMPTY) && !out[0]) { snprintf(out, TG_NAME, "%s", tame); variant = 8; }
+    if (!(allow & TG_ADV_LEADSP) && out[0] == ' ') out[0] = '_';
+    tg_adv_kinds[variant]++;
+    return variant;
+}
+
+/* make `name` differ from the `n` strings at base, base + stride, ... (names of one kind must identify the objects) */
+static void tg_adv_unique(char *name, const char *base, size_t stride, int n, int maxlen, int idx)
+{
+    int i, clash = 0;
+    for (i = 0; i < n; i++) if (strcmp(base + (size_t)i * stride, name) == 0) clash = 1;
+    if (!clash) return;
+    {
+        char t[16]; size_t l = strlen(name);
+        snprintf(t, sizeof t, "~%d", idx);
+        if ((int)(l + strlen(t)) > maxlen) l = (size_t)maxlen - strlen(t);
+        strcpy(name + l, t);
+    }
+    for (i = 0; i < n; i++) if (strcmp(base + (size_t)i * stride, name) == 0) snprintf(name, TG_NAME, "uniq~%d~%d", idx, n);
+}
+
+static void tg_adv_attrs(tg_attr_t *a, int n, int safemax, int hardmax, int percent, int gr)
+{
+    int j;
+    for (j = 0; j < n; j++)
+        if (hk_chance(percent)) {
+            char tame[TG_NAME]; snprintf(tame, sizeof tame, "%.60s", a[j].name);
+            tg_adv_string(a[j].name, safemax, hardmax, (gr ? 0 : TG_ADV_EXACT | TG_ADV_COMMA) | TG_ADV_LEADSP, tame);
+            tg_adv_unique(a[j].name, a[0].name, sizeof a[0], j, safemax, j);
+        }
+}
+
+/* a user vgroup that hrepack (by its documented rule: class equal to a library class, chunk-table class prefix, vgroup NAME
+   equal to GR_NAME) and every other HDF tool takes for one of the library's own */
+static int tg_vg_reserved(const tg_vg_t *g) { return tg_reserved_class(g->cls) || strcmp(g->name, GR_NAME) == 0; }
+
+static void tg_adversarial(tg_spec_t *s)
+{
+    int i, j;
+    char tame[TG_NAME];
+    for (i = 0; i < s->nvg; i++) {
+        tg_vg_t *g = &s->vg[i];
+        int      vn = 8, vc = 8;
+        /* a vgroup NAMED like the GR vgroup only in files without GR content (GRstart looks its own vgroup up by name) */
+        int      grname = (s->ngr == 0 && s->ngrattr == 0) ? TG_ADV_GRNAME : 0;
+        if (hk_chance(65)) { snprintf(tame, sizeof tame, "%s", g->cls); vc = tg_adv_string(g->cls, 300, 300, TG_ADV_EMPTY | TG_ADV_EXACT | TG_ADV_COMMA | TG_ADV_LEADSP | TG_ADV_GRNAME, tame[0] ? tame : "ucls"); }
+        tg_adv_focus = GR_NAME; /* the one NAME the tools give a meaning to */
+        if (hk_chance(65)) { snprintf(tame, sizeof tame, "%s", g->name); vn = tg_adv_string(g->name, 300, 300, TG_ADV_EMPTY | TG_ADV_COMMA | TG_ADV_LEADSP | (tg_reserved_class(g->cls) ? 0 : TG_ADV_EXACT | grname), tame); }
+        tg_adv_focus = NULL;
+        (void)vn; (void)vc;
+        tg_adv_unique(g->name, s->vg[0].name, sizeof s->vg[0], i, 300, i);
+        tg_adv_attrs(g->attr, g->nattr, 63, TG_VSNAME_MAX, 35, 0);
+    }
+    for (i = 0; i < s->nvs; i++) {
+        tg_vs_t *v = &s->vs[i];
+        if (hk_chance(65)) { snprintf(tame, sizeof tame, "%s", v->cls); tg_adv_string(v->cls, 63, TG_VSNAME_MAX, TG_ADV_EMPTY | TG_ADV_EXACT | TG_ADV_COMMA | TG_ADV_LEADSP | TG_ADV_GRNAME, tame[0] ? tame : "uvcls"); }
+        if (hk_chance(65)) { snprintf(tame, sizeof tame, "%s", v->name); tg_adv_string(v->name, 63, TG_VSNAME_MAX, TG_ADV_EMPTY | TG_ADV_COMMA | TG_ADV_LEADSP | TG_ADV_GRNAME | (tg_reserved_class(v->cls) ? 0 : TG_ADV_EXACT), tame); }
+        tg_adv_unique(v->name, s->vs[0].name, sizeof s->vs[0], i, 63, i);
+        if (hk_chance(25))
+            for (j = 0; j < v->nfld; j++) {
+                snprintf(tame, sizeof tame, "%s", v->fname[j]);
+                tg_adv_string(v->fname[j], 100, 100, TG_ADV_EXACT | TG_ADV_GRNAME, tame);
+                { char *c; for (c = v->fname[j]; *c; c++) if (*c == ',' || *c == ' ') *c = '_'; } /* separators of VSsetfields */
+                tg_adv_unique(v->fname[j], v->fname[0], sizeof v->fname[0], j, 100, j);
+            }
+        tg_adv_attrs(v->attr, v->nattr, 63, TG_VSNAME_MAX, 35, 0);
+    }
+    for (i = 0; i < s->nsds; i++) {
+        tg_sds_t *d = &s->sds[i];
+        if (hk_chance(50)) {
+            snprintf(tame, sizeof tame, "%s", d->name);
+            tg_adv_string(d->name, 255, TG_SDNAME_MAX, TG_ADV_EXACT | TG_ADV_COMMA, tame); /* not GR_NAME: the GR interface finds ITS vgroup by that name, a data set is a vgroup of that name */
+            if (strncmp(d->name, "fakeDim", 7) == 0) d->name[0] = 'F'; /* a data set named like a dimension is that dimension's coordinate variable */
+        }
+        tg_adv_unique(d->name, s->sds[0].name, sizeof s->sds[0], i, 255, i);
+        tg_adv_attrs(d->attr, d->nattr, 64, 64, 35, 0);
+        for (j = 0; j < d->rank; j++)
+            if (d->dimnamed[j] && hk_chance(40)) {
+                /* the extent stays part of the name: dimensions of one name share one size */
+                char b[TG_NAME]; snprintf(tame, sizeof tame, "dim");
+                tg_adv_string(b, 240, 240, TG_ADV_EXACT | TG_ADV_COMMA | TG_ADV_LEADSP | TG_ADV_GRNAME, tame);
+                if (d->unlimited && j == 0) snprintf(d->dimname[j], TG_NAME, "%.240s_u%d", b, i);
+                else snprintf(d->dimname[j], TG_NAME, "%.240s_%d", b, (int)d->dims[j]);
+                if (strlen(b) >= 239) { /* the long variant: up to the longest name */
+                    size_t l = strlen(d->dimname[j]), want = (size_t)(hk_chance(50) ? TG_SDNAME_MAX : 255);
+                    memmove(d->dimname[j] + (want - l), d->dimname[j], l + 1); memset(d->dimname[j], 'd', want - l);
+                }
+            }
+    }
+    /* dimension names are shared: the first user of a name owns scale and attributes (same rule as in tg_random) */
+    for (i = 0; i < s->nsds; i++)
+        for (j = 0; j < s->sds[i].rank; j++) {
+            int i2, j2;
+            if (!s->sds[i].dimnamed[j]) continue;
+            for (i2 = 0; i2 <= i; i2++)
+                for (j2 = 0; j2 < s->sds[i2].rank; j2++) {
+                    if (i2 == i && j2 >= j) break;
+                    if (s->sds[i2].dimnamed[j2] && strcmp(s->sds[i2].dimname[j2], s->sds[i].dimname[j]) == 0) {
+                        s->sds[i].dimscale[j] = 0; s->sds[i].dimattr[j] = 0;
+                        if (s->sds[i2].dims[j2] != s->sds[i].dims[j] || (s->sds[i2].unlimited && j2 == 0) != (s->sds[i].unlimited && j == 0)) s->sds[i].dimnamed[j] = 0;
+                    }
+                }
+        }
+    for (i = 0; i < s->ngr; i++) {
+        tg_gr_t *g = &s->gr[i];
+        if (hk_chance(50)) { snprintf(tame, sizeof tame, "%s", g->name); tg_adv_string(g->name, 255, TG_GRNAME_MAX, TG_ADV_EXACT | TG_ADV_COMMA | TG_ADV_LEADSP, tame); }
+        tg_adv_unique(g->name, s->gr[0].name, sizeof s->gr[0], i, 255, i);
+        /* GRsetattr gives the name FILL_ATTR a meaning of its own; the name becomes a vdata FIELD name (no ',') */
+        tg_adv_attrs(g->attr, g->nattr, 64, 64, 35, 1);
+    }
+    tg_adv_attrs(s->sdattr, s->nsdattr, 64, 64, 35, 0);
+    tg_adv_attrs(s->grattr, s->ngrattr, 64, 64, 35, 1);
+    /* what lives below a vgroup that every tool takes for the library's own is not reachable as a user object: keep
+       user vgroups / vdatas out of there (data sets and images may stay: they are found through the SD / GR interfaces) */
+    for (i = 0; i < s->nvg; i++) if (s->vg[i].parent >= 0 && tg_vg_reserved(&s->vg[s->vg[i].parent])) s->vg[i].parent = -1;
+    for (i = 0; i < s->nvs; i++) if (s->vs[i].parent >= 0 && tg_vg_reserved(&s->vg[s->vs[i].parent])) s->vs[i].parent = -1;
+    /* a vdata of class _HDF_ATTRIBUTE inside a vgroup IS an (old style) attribute of that vgroup by the file format
+       (Vnoldattrs): such a vdata stays lone. With any other library class a vdata inside a user vgroup is an ordinary member */
+    for (i = 0; i < s->nvs; i++) if (strcmp(s->vs[i].cls, _HDF_ATTRIBUTE) == 0) s->vs[i].parent = -1;
+    /* an object that carries a class the library uses is told from the library's own objects of that class by its name alone */
+    for (i = 0; i < s->nvg; i++) if (tg_internal_class(s->vg[i].cls) && strcmp(s->vg[i].name, GR_NAME)) snprintf(s->vg[i].name, TG_NAME, "user vgroup %d", i);
+    for (i = 0; i < s->nvs; i++) if (tg_internal_class(s->vs[i].cls)) snprintf(s->vs[i].name, TG_NAME, "user vdata %d", i);
+    /* what goes with such an object (annotations) is not looked for either */
+    for (i = 0; i < s->nvg; i++) if (tg_vg_reserved(&s->vg[i])) s->vg[i].label = s->vg[i].desc = 0;
+    for (i = 0; i < s->nvs; i++) if (s->vs[i].parent < 0 && tg_reserved_class(s->vs[i].cls)) s->vs[i].label = s->vs[i].desc = 0;
 }
 
 static long tg_nelem(int rank, const int32 *dims)
@@ -624,6 +854,11 @@ static int tg_attr_same_sd(int32 a, int32 b, int32 na, const char *who, const ch
     return same;
 }
 
+static int tg_default_dimname(const char *n)
+{
+    return strncmp(n, "fakeDim", 7) == 0 && n[7] != 0 && strspn(n + 7, "0123456789") == strlen(n + 7);
+}
+
 static void tg_cmp_sd(const char *fa, const char *fb)
 {
     int32 a = SDstart(fa, DFACC_READ), b = SDstart(fb, DFACC_READ);
@@ -674,9 +909,10 @@ static void tg_cmp_sd(const char *fa, const char *fb)
             int32 d1 = SDgetdimid(ia, j), d2 = SDgetdimid(ib, j), s1, s2, t1, t2, n1, n2;
             char  dn1[H4_MAX_NC_NAME + 1], dn2[H4_MAX_NC_NAME + 1];
             if (SDdiminfo(d1, dn1, &s1, &t1, &n1) == FAIL || SDdiminfo(d2, dn2, &s2, &t2, &n2) == FAIL) { tg_diff("sds-dim", "SDS %s SDdiminfo failed dim %d", name, j); continue; }
-            /* "fakeDim<n>" are the library's default names (numbered in creation order): not content */
-            if (strcmp(dn1, dn2) && !(strncmp(dn1, "fakeDim", 7) == 0 && strncmp(dn2, "fakeDim", 7) == 0))
-                tg_diff((strncmp(dn1, "fakeDim", 7) == 0 || strncmp(dn2, "fakeDim", 7) == 0) ? "fakedim-rename-collision" : "sds-dimname", "SDS %s dim %d name %s vs %s", name, j, dn1, dn2);
+            /* "fakeDim<n>" are the library's default names (numbered in creation order): not content. Only exactly that
+               shape: "fakeDim", "fakeDimX", "fakeDim1 " ... are names a user chose */
+            if (strcmp(dn1, dn2) && !(tg_default_dimname(dn1) && tg_default_dimname(dn2)))
+                tg_diff((tg_default_dimname(dn1) || tg_default_dimname(dn2)) ? "fakedim-rename-collision" : "sds-dimname", "SDS %s dim %d name %s vs %s", name, j, dn1, dn2);
             if (s1 != s2) tg_diff("sds-dimsize", "SDS %s dim %d size %d vs %d", name, j, (int)s1, (int)s2);
             if (t1 != t2) tg_diff("sds-dimscale", "SDS %s dim %d (%s) scale type %d vs %d", name, j, dn1, (int)t1, (int)t2);
             else if (t1 != 0) {
@@ -768,7 +1004,17 @@ static int tg_internal_class(const char *c)
     return strncmp(c, "_HDF_CHK_TBL_", 13) == 0;
 }
 
-typedef struct { int32 ref; char name[VSNAMELENMAX + 1]; char cls[VSNAMELENMAX + 1]; } tg_ent_t;
+#define TG_ENT 512 /* vgroup names / classes have no upper bound in the file format; longer ones are reported, not read */
+typedef struct { int32 ref; char name[TG_ENT]; char cls[TG_ENT]; } tg_ent_t;
+
+/* Vgetname / Vgetclass into bounded buffers */
+static void tg_vg_strings(int32 id, char *name, char *cls, size_t cap)
+{
+    uint16 ln = 0, lc = 0;
+    name[0] = cls[0] = 0;
+    if (Vgetnamelen(id, &ln) != FAIL) { if ((size_t)ln < cap) Vgetname(id, name); else snprintf(name, cap, "?name of %u characters", (unsigned)ln); }
+    if (Vgetclassnamelen(id, &lc) != FAIL) { if ((size_t)lc < cap) Vgetclass(id, cls); else snprintf(cls, cap, "?class of %u characters", (unsigned)lc); }
+}
 
 static int tg_list_vs(int32 f, tg_ent_t *e, int cap)
 {
@@ -785,6 +1031,7 @@ static int tg_list_vs(int32 f, tg_ent_t *e, int cap)
 }
 
 /* number of vdatas of a given class (attribute vdatas: one per attribute of an SDS / vdata / vgroup / field) */
+static int tg_lone_attr_class;
 static int tg_count_class(int32 f, const char *cls)
 {
     int32 ref = -1; int n = 0;
@@ -803,8 +1050,8 @@ static int tg_list_vg(int32 f, tg_ent_t *e, int cap)
     while ((ref = Vgetid(f, ref)) != FAIL && n < cap) {
         int32 id = Vattach(f, ref, "r");
         if (id == FAIL) continue;
-        e[n].ref = ref; e[n].name[0] = e[n].cls[0] = 0;
-        Vgetname(id, e[n].name); Vgetclass(id, e[n].cls);
+        e[n].ref = ref;
+        tg_vg_strings(id, e[n].name, e[n].cls, TG_ENT);
         Vdetach(id);
         if (!tg_internal_class(e[n].cls) && strcmp(e[n].name, GR_NAME)) n++;
     }
@@ -852,7 +1099,8 @@ static void tg_cmp_ann_obj(int32 ana, int32 anb, uint16 tag, uint16 ra, uint16 r
     }
 }
 
-static void tg_member_names(int32 f, int32 vg, char out[][96], int *n, int cap)
+#define TG_MEMB 400
+static void tg_member_names(int32 f, int32 vg, char out[][TG_MEMB], int *n, int cap)
 {
     int32 nt = Vntagrefs(vg), k;
     *n = 0;
@@ -860,39 +1108,39 @@ static void tg_member_names(int32 f, int32 vg, char out[][96], int *n, int cap)
         int32 tag, ref;
         if (Vgettagref(vg, k, &tag, &ref) == FAIL) continue;
         if (tag == DFTAG_VG) {
-            int32 id = Vattach(f, ref, "r"); char nm[VGNAMELENMAX + 1] = "", cl[VGNAMELENMAX + 1] = "";
-            if (id == FAIL) { snprintf(out[(*n)++], 96, "VG:?dangling ref %d", (int)ref); continue; }
-            Vgetname(id, nm); Vgetclass(id, cl); Vdetach(id);
-            if (tg_internal_class(cl)) continue;
-            snprintf(out[(*n)++], 96, "VG:%s", nm);
+            int32 id = Vattach(f, ref, "r"); char nm[TG_ENT] = "", cl[TG_ENT] = "";
+            if (id == FAIL) { snprintf(out[(*n)++], TG_MEMB, "VG:?dangling ref %d", (int)ref); continue; }
+            tg_vg_strings(id, nm, cl, TG_ENT); Vdetach(id);
+            if (tg_internal_class(cl) || strcmp(nm, GR_NAME) == 0) continue; /* as in tg_list_vg */
+            snprintf(out[(*n)++], TG_MEMB, "VG:%s", nm);
         }
         else if (tag == DFTAG_VH) {
             int32 id = VSattach(f, ref, "r"); char nm[VSNAMELENMAX + 1] = "", cl[VSNAMELENMAX + 1] = "";
-            if (id == FAIL) { snprintf(out[(*n)++], 96, "VS:?dangling ref %d", (int)ref); continue; }
+            if (id == FAIL) { snprintf(out[(*n)++], TG_MEMB, "VS:?dangling ref %d", (int)ref); continue; }
             VSgetname(id, nm); VSgetclass(id, cl); VSdetach(id);
             if (tg_internal_class(cl)) continue;
-            snprintf(out[(*n)++], 96, "VS:%s", nm);
+            snprintf(out[(*n)++], TG_MEMB, "VS:%s", nm);
         }
-        else if (tag == DFTAG_NDG || tag == DFTAG_SDG || tag == DFTAG_SD) snprintf(out[(*n)++], 96, "SD:%d", (int)ref);
-        else if (tag == DFTAG_RIG || tag == DFTAG_RI || tag == DFTAG_CI) snprintf(out[(*n)++], 96, "GR:%d", (int)ref);
-        else snprintf(out[(*n)++], 96, "T%d", (int)tag);
+        else if (tag == DFTAG_NDG || tag == DFTAG_SDG || tag == DFTAG_SD) snprintf(out[(*n)++], TG_MEMB, "SD:%d", (int)ref);
+        else if (tag == DFTAG_RIG || tag == DFTAG_RI || tag == DFTAG_CI) snprintf(out[(*n)++], TG_MEMB, "GR:%d", (int)ref);
+        else snprintf(out[(*n)++], TG_MEMB, "T%d", (int)tag);
     }
 }
 
 /* SD:<ref> / GR:<ref> -> SD:<name> using the per-file ref->name tables */
-typedef struct { int n; int32 ref[64]; char name[64][80]; } tg_refnames_t;
-static void tg_resolve(char m[][96], int n, const tg_refnames_t *sd, const tg_refnames_t *gr)
+typedef struct { int n; int32 ref[64]; char name[64][H4_MAX_NC_NAME + 4]; } tg_refnames_t;
+static void tg_resolve(char m[][TG_MEMB], int n, const tg_refnames_t *sd, const tg_refnames_t *gr)
 {
     int k, q;
     for (k = 0; k < n; k++) {
         const tg_refnames_t *t = (strncmp(m[k], "SD:", 3) == 0) ? sd : (strncmp(m[k], "GR:", 3) == 0) ? gr : NULL;
         if (!t) continue;
         for (q = 0; q < t->n; q++)
-            if (t->ref[q] == atoi(m[k] + 3)) { snprintf(m[k] + 3, 90, "%s", t->name[q]); break; }
+            if (t->ref[q] == atoi(m[k] + 3)) { snprintf(m[k] + 3, TG_MEMB - 6, "%s", t->name[q]); break; }
         if (q == t->n) strcat(m[k], "?unknown-ref");
     }
 }
-static int tg_strcmp96(const void *a, const void *b) { return strcmp((const char *)a, (const char *)b); }
+static int tg_strcmp96(const void *a, const void *b) /* elements of TG_MEMB bytes */ { return strcmp((const char *)a, (const char *)b); }
 
 static void tg_refnames(const char *path, int32 fid, tg_refnames_t *sd, tg_refnames_t *gr)
 {
@@ -903,7 +1151,7 @@ static void tg_refnames(const char *path, int32 fid, tg_refnames_t *sd, tg_refna
         for (i = 0; i < n && sd->n < 64; i++) {
             int32 id = SDselect(s, i), r, d[H4_MAX_VAR_DIMS], t, a; char nm[H4_MAX_NC_NAME + 1];
             SDgetinfo(id, nm, &r, d, &t, &a);
-            sd->ref[sd->n] = SDidtoref(id); snprintf(sd->name[sd->n], 80, "%s", nm); sd->n++;
+            sd->ref[sd->n] = SDidtoref(id); snprintf(sd->name[sd->n], sizeof sd->name[0], "%s", nm); sd->n++;
             SDendaccess(id);
         }
         SDend(s);
@@ -914,11 +1162,236 @@ static void tg_refnames(const char *path, int32 fid, tg_refnames_t *sd, tg_refna
         for (i = 0; i < n && gr->n < 64; i++) {
             int32 id = GRselect(g, i), c, t, l, d[2], a; char nm[H4_MAX_GR_NAME + 1];
             GRgetiminfo(id, nm, &c, &t, &l, d, &a);
-            gr->ref[gr->n] = GRidtoref(id); snprintf(gr->name[gr->n], 80, "%s", nm); gr->n++;
+            gr->ref[gr->n] = GRidtoref(id); snprintf(gr->name[gr->n], sizeof gr->name[0], "%s", nm); gr->n++;
             GRendaccess(id);
         }
         GRend(g);
     }
+}
+
+
+/* ------------------------------------------------------------------------------------------------ description vs file
+ *
+ * tg_user_check(path, spec): every USER object of the description is in the file exactly once, with its name, class,
+ * attributes, members and place in the hierarchy.  Unlike tg_compare this check does not enumerate "the user objects of a
+ * file" (which needs an opinion about what is internal): it starts from the objects the generator created and looks each
+ * one up by (name, class) among ALL vgroups / vdatas of the file.  Objects a tool may legitimately take for the library's
+ * own (tg_vg_reserved, lone vdatas with tg_internal_class) are not required; whether they are there is reported through
+ * tg_present_vg / tg_present_vs for the tie with the model.
+ */
+typedef struct { int32 ref; char *name; char *cls; } tg_vobj_t;
+
+static int tg_all_vgroups(int32 f, tg_vobj_t *o, int cap)
+{
+    int32 ref = -1; int n = 0;
+    while ((ref = Vgetid(f, ref)) != FAIL && n < cap) {
+        int32 id = Vattach(f, ref, "r"); uint16 ln = 0, lc = 0;
+        if (id == FAIL) continue;
+        Vgetnamelen(id, &ln); Vgetclassnamelen(id, &lc);
+        o[n].ref = ref; o[n].name = calloc((size_t)ln + 2, 1); o[n].cls = calloc((size_t)lc + 2, 1);
+        Vgetname(id, o[n].name); Vgetclass(id, o[n].cls);
+        Vdetach(id); n++;
+    }
+    return n;
+}
+static int tg_all_vdatas(int32 f, tg_vobj_t *o, int cap)
+{
+    int32 ref = -1; int n = 0;
+    while ((ref = VSgetid(f, ref)) != FAIL && n < cap) {
+        int32 id = VSattach(f, ref, "r");
+        if (id == FAIL) continue;
+        o[n].ref = ref; o[n].name = calloc(VSNAMELENMAX + 2, 1); o[n].cls = calloc(VSNAMELENMAX + 2, 1);
+        VSgetname(id, o[n].name); VSgetclass(id, o[n].cls);
+        VSdetach(id); n++;
+    }
+    return n;
+}
+static void tg_free_vobjs(tg_vobj_t *o, int n) { int i; for (i = 0; i < n; i++) { free(o[i].name); free(o[i].cls); } }
+static int tg_find_vobj(const tg_vobj_t *o, int n, const char *name, const char *cls, int *count)
+{
+    int i, hit = -1; *count = 0;
+    for (i = 0; i < n; i++) if (strcmp(o[i].name, name) == 0 && strcmp(o[i].cls, cls) == 0) { if (hit < 0) hit = i; (*count)++; }
+    return hit;
+}
+static int tg_ref_in(const int32 *refs, int n, int32 ref) { int i; for (i = 0; i < n; i++) if (refs[i] == ref) return 1; return 0; }
+static int tg_cmp_strp(const void *a, const void *b) { return strcmp(*(char *const *)a, *(char *const *)b); }
+static char *tg_mstr(const char *kind, const char *a, const char *b)
+{
+    size_t l = strlen(kind) + strlen(a) + (b ? strlen(b) : 0) + 4; char *r = malloc(l);
+    if (b) snprintf(r, l, "%s%s|%s", kind, a, b); else snprintf(r, l, "%s%s", kind, a);
+    return r;
+}
+
+/* presence flags filled by tg_user_check (1 = exactly one object of that name and class, 0 = none, 2 = several) */
+static int tg_present_vg[TG_MAXVG], tg_present_vs[TG_MAXVS];
+
+static long tg_user_check(const char *path, const tg_spec_t *s)
+{
+    static tg_vobj_t vg[256], vs[1024];
+    static tg_refnames_t sdn, grn;
+    int   nvg, nvs, i, j, k;
+    int32 f, *lone_vg = NULL, *lone_vs = NULL, nlvg, nlvs;
+    tg_ndiff = 0; tg_first[0] = 0; tg_firstkey[0] = 0;
+    f = Hopen(path, DFACC_READ, 0);
+    if (f == FAIL) { tg_diff("h-open", "Hopen(%s) failed", path); return tg_ndiff; }
+    Vstart(f);
+    tg_refnames(path, f, &sdn, &grn);
+    nvg = tg_all_vgroups(f, vg, 256); nvs = tg_all_vdatas(f, vs, 1024);
+    nlvg = Vlone(f, NULL, 0); if (nlvg < 0) nlvg = 0;
+    lone_vg = calloc((size_t)nlvg + 1, sizeof(int32)); Vlone(f, lone_vg, nlvg);
+    nlvs = VSlone(f, NULL, 0); if (nlvs < 0) nlvs = 0;
+    lone_vs = calloc((size_t)nlvs + 1, sizeof(int32)); VSlone(f, lone_vs, nlvs);
+
+    for (i = 0; i < s->nvg; i++) {
+        const tg_vg_t *g = &s->vg[i];
+        int   cnt, m = tg_find_vobj(vg, nvg, g->name, g->cls, &cnt), ne = 0, na = 0;
+        int32 id, nt;
+        char *exp[64], *act[64];
+        tg_present_vg[i] = cnt > 1 ? 2 : cnt;
+        if (tg_vg_reserved(g)) continue;
+        if (cnt == 0) { tg_diff("user-vgroup-lost", "vgroup <%.80s> of class <%.80s> is not in %s", g->name, g->cls, path); continue; }
+        if (cnt > 1) { tg_diff("user-vgroup-duplicated", "%d vgroups <%.80s> of class <%.80s>", cnt, g->name, g->cls); continue; }
+        if ((g->parent < 0) != tg_ref_in(lone_vg, nlvg, vg[m].ref)) tg_diff("user-vgroup-position", "vgroup <%.80s> (class <%.80s>) %s a top-level vgroup", g->name, g->cls, g->parent < 0 ? "is no longer" : "has become");
+        id = Vattach(f, vg[m].ref, "r");
+        if (id == FAIL) { tg_diff("user-vgroup-lost", "vgroup <%.80s> cannot be attached", g->name); continue; }
+        if (Vnattrs(id) != g->nattr) tg_diff("user-vgroup-attrs", "vgroup <%.80s> (class <%.80s>) has %d attributes, created with %d", g->name, g->cls, (int)Vnattrs(id), g->nattr);
+        else
+            for (j = 0; j < g->nattr; j++) {
+                char an[H4_MAX_NC_NAME + 1] = ""; int32 t = 0, c = 0, sz = 0; uint8 val[96] = {0};
+                if (Vattrinfo(id, j, an, &t, &c, &sz) == FAIL || strcmp(an, g->attr[j].name) || t != g->attr[j].nt || c != g->attr[j].count)
+                    tg_diff("user-vgroup-attrs", "vgroup <%.80s> attribute %d is <%.80s>/%d/%d, created as <%.80s>/%d/%d", g->name, j, an, (int)t, (int)c, g->attr[j].name, (int)g->attr[j].nt, (int)g->attr[j].count);
+                else if (Vgetattr(id, j, val) == FAIL || memcmp(val, g->attr[j].data, (size_t)c * (size_t)tg_ntsize(t)))
+                    tg_diff("user-vgroup-attrs", "vgroup <%.80s> attribute <%.80s>: other values", g->name, an);
+            }
+        /* members */
+        for (k = 0; k < s->nvg; k++) if (s->vg[k].parent == i && !tg_vg_reserved(&s->vg[k])) exp[ne++] = tg_mstr("VG:", s->vg[k].name, s->vg[k].cls);
+        for (k = 0; k < s->nsds; k++) if (s->sds[k].parent == i) exp[ne++] = tg_mstr("SD:", s->sds[k].name, NULL);
+        for (k = 0; k < s->ngr; k++) if (s->gr[k].parent == i) exp[ne++] = tg_mstr("GR:", s->gr[k].name, NULL);
+        for (k = 0; k < s->nvs; k++) if (s->vs[k].parent == i) exp[ne++] = tg_mstr("VS:", s->vs[k].name, s->vs[k].cls);
+        nt = Vntagrefs(id);
+        for (k = 0; k < nt && na < 64; k++) {
+            int32 tag, ref; int q;
+            if (Vgettagref(id, k, &tag, &ref) == FAIL) continue;
+            if (tag == DFTAG_VG) {
+                for (q = 0; q < nvg; q++) if (vg[q].ref == ref) break;
+                if (q == nvg) act[na++] = tg_mstr("VG:", "?dangling", NULL);
+                else if (!(tg_reserved_class(vg[q].cls) || strcmp(vg[q].name, GR_NAME) == 0)) act[na++] = tg_mstr("VG:", vg[q].name, vg[q].cls);
+            }
+            else if (tag == DFTAG_VH) {
+                for (q = 0; q < nvs; q++) if (vs[q].ref == ref) break;
+                if (q == nvs) act[na++] = tg_mstr("VS:", "?dangling", NULL);
+                else act[na++] = tg_mstr("VS:", vs[q].name, vs[q].cls);
+            }
+            else if (tag == DFTAG_NDG || tag == DFTAG_SDG || tag == DFTAG_SD) {
+                for (q = 0; q < sdn.n; q++) if (sdn.ref[q] == ref) break;
+                act[na++] = tg_mstr("SD:", q < sdn.n ? sdn.name[q] : "?unknown ref", NULL);
+            }
+            else if (tag == DFTAG_RIG || tag == DFTAG_RI || tag == DFTAG_CI) {
+                for (q = 0; q < grn.n; q++) if (grn.ref[q] == ref) break;
+                act[na++] = tg_mstr("GR:", q < grn.n ? grn.name[q] : "?unknown ref", NULL);
+            }
+            else { char t[32]; snprintf(t, sizeof t, "%d/%d", (int)tag, (int)ref); act[na++] = tg_mstr("T:", t, NULL); }
+        }
+        qsort(exp, (size_t)ne, sizeof exp[0], tg_cmp_strp); qsort(act, (size_t)na, sizeof act[0], tg_cmp_strp);
+        if (ne != na) tg_diff("user-vgroup-members", "vgroup <%.80s> (class <%.80s>) has %d members, created with %d", g->name, g->cls, na, ne);
+        else
+            for (k = 0; k < ne; k++)
+                if (strcmp(exp[k], act[k])) { tg_diff("user-vgroup-members", "vgroup <%.80s>: member <%.100s> instead of <%.100s>", g->name, act[k], exp[k]); break; }
+        for (k = 0; k < ne; k++) free(exp[k]);
+        for (k = 0; k < na; k++) free(act[k]);
+        Vdetach(id);
+    }
+
+    for (i = 0; i < s->nvs; i++) {
+        const tg_vs_t *v = &s->vs[i];
+        int   cnt, m = tg_find_vobj(vs, nvs, v->name, v->cls, &cnt);
+        int32 id, n = 0, il = 0, sz = 0;
+        tg_present_vs[i] = cnt > 1 ? 2 : cnt;
+        if (v->parent < 0 && tg_reserved_class(v->cls)) continue;
+        if (cnt == 0) { tg_diff("user-vdata-lost", "vdata <%.80s> of class <%.80s> is not in %s", v->name, v->cls, path); continue; }
+        if (cnt > 1) { tg_diff("user-vdata-duplicated", "%d vdatas <%.80s> of class <%.80s>", cnt, v->name, v->cls); continue; }
+        if ((v->parent < 0) != tg_ref_in(lone_vs, nlvs, vs[m].ref)) tg_diff("user-vdata-position", "vdata <%.80s> (class <%.80s>) %s a lone vdata", v->name, v->cls, v->parent < 0 ? "is no longer" : "has become");
+        id = VSattach(f, vs[m].ref, "r");
+        if (id == FAIL) { tg_diff("user-vdata-lost", "vdata <%.80s> cannot be attached", v->name); continue; }
+        VSinquire(id, &n, &il, NULL, &sz, NULL);
+        if (n != v->nrec || VFnfields(id) != v->nfld || (v->nrec > 0 && il != v->il)) tg_diff("user-vdata-content", "vdata <%.80s>: %d records / %d fields / interlace %d, created with %d / %d / %d", v->name, (int)n, (int)VFnfields(id), (int)il, (int)v->nrec, v->nfld, (int)v->il);
+        else
+            for (j = 0; j < v->nfld; j++) {
+                const char *fn = VFfieldname(id, j);
+                if (!fn || strcmp(fn, v->fname[j]) || VFfieldtype(id, j) != v->ftype[j] || VFfieldorder(id, j) != v->forder[j])
+                    tg_diff("user-vdata-content", "vdata <%.80s> field %d is <%.80s>/%d/%d, created as <%.80s>/%d/%d", v->name, j, fn ? fn : "?", (int)VFfieldtype(id, j), (int)VFfieldorder(id, j), v->fname[j], (int)v->ftype[j], (int)v->forder[j]);
+                else if (VSfnattrs(id, j) != (v->fattr[j] ? 1 : 0)) tg_diff("user-vdata-attrs", "vdata <%.80s> field %d has %d attributes, created with %d", v->name, j, (int)VSfnattrs(id, j), v->fattr[j] ? 1 : 0);
+            }
+        if (VSfnattrs(id, _HDF_VDATA) != v->nattr) tg_diff("user-vdata-attrs", "vdata <%.80s> (class <%.80s>) has %d attributes, created with %d", v->name, v->cls, (int)VSfnattrs(id, _HDF_VDATA), v->nattr);
+        else
+            for (j = 0; j < v->nattr; j++) {
+                char an[H4_MAX_NC_NAME + 1] = ""; int32 t = 0, c = 0, asz = 0; uint8 val[96] = {0};
+                if (VSattrinfo(id, _HDF_VDATA, j, an, &t, &c, &asz) == FAIL || strcmp(an, v->attr[j].name) || t != v->attr[j].nt || c != v->attr[j].count)
+                    tg_diff("user-vdata-attrs", "vdata <%.80s> attribute %d is <%.80s>/%d/%d, created as <%.80s>/%d/%d", v->name, j, an, (int)t, (int)c, v->attr[j].name, (int)v->attr[j].nt, (int)v->attr[j].count);
+                else if (VSgetattr(id, _HDF_VDATA, j, val) == FAIL || memcmp(val, v->attr[j].data, (size_t)c * (size_t)tg_ntsize(t)))
+                    tg_diff("user-vdata-attrs", "vdata <%.80s> attribute <%.80s>: other values", v->name, an);
+            }
+        VSdetach(id);
+    }
+    /* data sets and images: by name through their own interfaces */
+    {
+        int32 sd = SDstart(path, DFACC_READ);
+        if (sd == FAIL) { if (s->nsds > 0) tg_diff("sd-open", "SDstart(%s) failed", path); }
+        else {
+            for (i = 0; i < s->nsds; i++) {
+                const tg_sds_t *d = &s->sds[i];
+                int32 idx = SDnametoindex(sd, d->name), id, rank = 0, dims[H4_MAX_VAR_DIMS], nt = 0, na = 0;
+                char  nm[H4_MAX_NC_NAME + 2] = "";
+                if (idx == FAIL || (id = SDselect(sd, idx)) == FAIL) { tg_diff("user-sds-lost", "data set <%.80s> is not in %s", d->name, path); continue; }
+                SDgetinfo(id, nm, &rank, dims, &nt, &na);
+                if (rank != d->rank || nt != d->nt) tg_diff("user-sds-lost", "data set <%.80s> has rank/type %d/%d, created with %d/%d", d->name, (int)rank, (int)nt, d->rank, (int)d->nt);
+                for (j = 0; j < d->nattr; j++) {
+                    int32 ai = SDfindattr(id, d->attr[j].name), t = 0, c = 0; char an[H4_MAX_NC_NAME + 2] = ""; uint8 val[96] = {0};
+                    if (ai == FAIL || SDattrinfo(id, ai, an, &t, &c) == FAIL || t != d->attr[j].nt || c != d->attr[j].count || SDreadattr(id, ai, val) == FAIL || memcmp(val, d->attr[j].data, (size_t)c * (size_t)tg_ntsize(t)))
+                        tg_diff("user-sds-attrs", "data set <%.80s>: attribute <%.80s> missing or changed", d->name, d->attr[j].name);
+                }
+                for (j = 0; j < d->rank && j < rank; j++)
+                    if (d->dimnamed[j]) {
+                        char dn[H4_MAX_NC_NAME + 2] = ""; int32 dsz, dt, dna;
+                        if (SDdiminfo(SDgetdimid(id, j), dn, &dsz, &dt, &dna) == FAIL || strcmp(dn, d->dimname[j])) tg_diff("user-sds-dimname", "data set <%.80s> dimension %d is named <%.80s>, created as <%.80s>", d->name, j, dn, d->dimname[j]);
+                    }
+                SDendaccess(id);
+            }
+            for (j = 0; j < s->nsdattr; j++) {
+                int32 ai = SDfindattr(sd, s->sdattr[j].name), t = 0, c = 0; char an[H4_MAX_NC_NAME + 2] = ""; uint8 val[96] = {0};
+                if (ai == FAIL || SDattrinfo(sd, ai, an, &t, &c) == FAIL || t != s->sdattr[j].nt || c != s->sdattr[j].count || SDreadattr(sd, ai, val) == FAIL || memcmp(val, s->sdattr[j].data, (size_t)c * (size_t)tg_ntsize(t)))
+                    tg_diff("user-globattr", "SD file attribute <%.80s> missing or changed", s->sdattr[j].name);
+            }
+            SDend(sd);
+        }
+    }
+    if (s->ngr > 0 || s->ngrattr > 0) {
+        int32 gr = GRstart(f);
+        if (gr == FAIL) tg_diff("gr-open", "GRstart failed");
+        else {
+            for (i = 0; i < s->ngr; i++) {
+                const tg_gr_t *g = &s->gr[i];
+                int32 idx = GRnametoindex(gr, g->name), id;
+                if (idx == FAIL || (id = GRselect(gr, idx)) == FAIL) { tg_diff("user-image-lost", "image <%.80s> is not in %s", g->name, path); continue; }
+                for (j = 0; j < g->nattr; j++) {
+                    int32 ai = GRfindattr(id, g->attr[j].name), t = 0, c = 0; char an[H4_MAX_GR_NAME + 2] = ""; uint8 val[96] = {0};
+                    if (ai == FAIL || GRattrinfo(id, ai, an, &t, &c) == FAIL || t != g->attr[j].nt || c != g->attr[j].count || GRgetattr(id, ai, val) == FAIL || memcmp(val, g->attr[j].data, (size_t)c * (size_t)tg_ntsize(t)))
+                        tg_diff("user-image-attrs", "image <%.80s>: attribute <%.80s> missing or changed", g->name, g->attr[j].name);
+                }
+                GRendaccess(id);
+            }
+            for (j = 0; j < s->ngrattr; j++) {
+                int32 ai = GRfindattr(gr, s->grattr[j].name), t = 0, c = 0; char an[H4_MAX_GR_NAME + 2] = ""; uint8 val[96] = {0};
+                if (ai == FAIL || GRattrinfo(gr, ai, an, &t, &c) == FAIL || t != s->grattr[j].nt || c != s->grattr[j].count || GRgetattr(gr, ai, val) == FAIL || memcmp(val, s->grattr[j].data, (size_t)c * (size_t)tg_ntsize(t)))
+                    tg_diff("user-globattr", "GR file attribute <%.80s> missing or changed", s->grattr[j].name);
+            }
+            GRend(gr);
+        }
+    }
+    free(lone_vg); free(lone_vs);
+    tg_free_vobjs(vg, nvg); tg_free_vobjs(vs, nvs);
+    Vend(f); Hclose(f);
+    return tg_ndiff;
 }
 
 #define TG_CMP_NOAN 1 /* skip annotations */
@@ -926,9 +1399,9 @@ static void tg_refnames(const char *path, int32 fid, tg_refnames_t *sd, tg_refna
 static long tg_compare(const char *fa, const char *fb, int flags)
 {
     int32         a, b, ana, anb;
-    tg_ent_t      ea[64], eb[64];
-    int           na, nb, i, j;
-    tg_refnames_t sda, gra, sdb, grb;
+    static tg_ent_t      ea[64], eb[64];
+    int                  na, nb, i, j;
+    static tg_refnames_t sda, gra, sdb, grb;
     tg_ndiff = 0; tg_first[0] = 0; tg_firstkey[0] = 0;
     tg_cmp_sd(fa, fb);
     a = Hopen(fa, DFACC_READ, 0); b = Hopen(fb, DFACC_READ, 0);
@@ -969,11 +1442,12 @@ static long tg_compare(const char *fa, const char *fb, int flags)
                 for (k = 0; k < nf; k++) tg_cmp_vsattrs(ia, ib, k, ea[i].name);
             }
         }
-        if (!(flags & TG_CMP_NOAN)) { char who[96]; snprintf(who, sizeof who, "vdata %s", ea[i].name); tg_cmp_ann_obj(ana, anb, DFTAG_VH, (uint16)ea[i].ref, (uint16)eb[j].ref, who); }
+        if (!(flags & TG_CMP_NOAN)) { char who[TG_ENT + 16]; snprintf(who, sizeof who, "vdata %s", ea[i].name); tg_cmp_ann_obj(ana, anb, DFTAG_VH, (uint16)ea[i].ref, (uint16)eb[j].ref, who); }
         VSdetach(ia); VSdetach(ib);
     }
     {
-        int c1 = tg_count_class(a, _HDF_ATTRIBUTE), c2 = tg_count_class(b, _HDF_ATTRIBUTE);
+        /* tg_lone_attr_class: user vdatas of the first file that are lone and of class _HDF_ATTRIBUTE (set by the caller; a tool takes them for attributes nobody owns) */
+        int c1 = tg_count_class(a, _HDF_ATTRIBUTE) - tg_lone_attr_class, c2 = tg_count_class(b, _HDF_ATTRIBUTE);
         if (c1 != c2) tg_diff("vs-attribute-vdata-duplicated", "number of attribute vdatas (class %s) %d vs %d", _HDF_ATTRIBUTE, c1, c2);
     }
     /* vgroups */
@@ -981,7 +1455,7 @@ static long tg_compare(const char *fa, const char *fb, int flags)
     if (na != nb) tg_diff("vg-count", "number of user vgroups %d vs %d", na, nb);
     for (i = 0; i < na; i++) {
         int32 ia, ib;
-        char  m1[64][96], m2[64][96];
+        static char m1[64][TG_MEMB], m2[64][TG_MEMB];
         int   c1, c2, k;
         for (j = 0; j < nb; j++) if (strcmp(ea[i].name, eb[j].name) == 0) break;
         if (j == nb) { tg_diff("vg-missing", "vgroup %s missing in second file", ea[i].name); continue; }
@@ -990,7 +1464,7 @@ static long tg_compare(const char *fa, const char *fb, int flags)
         if (ia == FAIL || ib == FAIL) { tg_diff("vg-attach", "vgroup %s cannot be attached", ea[i].name); continue; }
         tg_member_names(a, ia, m1, &c1, 64); tg_member_names(b, ib, m2, &c2, 64);
         tg_resolve(m1, c1, &sda, &gra); tg_resolve(m2, c2, &sdb, &grb);
-        qsort(m1, (size_t)c1, 96, tg_strcmp96); qsort(m2, (size_t)c2, 96, tg_strcmp96);
+        qsort(m1, (size_t)c1, TG_MEMB, tg_strcmp96); qsort(m2, (size_t)c2, TG_MEMB, tg_strcmp96);
         if (c1 != c2) tg_diff("vg-members", "vgroup %s has %d vs %d members", ea[i].name, c1, c2);
         else
             for (k = 0; k < c1; k++)
@@ -1008,7 +1482,7 @@ static long tg_compare(const char *fa, const char *fb, int flags)
                            free(v1); free(v2); }
                 }
         }
-        if (!(flags & TG_CMP_NOAN)) { char who[96]; snprintf(who, sizeof who, "vgroup %s", ea[i].name); tg_cmp_ann_obj(ana, anb, DFTAG_VG, (uint16)ea[i].ref, (uint16)eb[j].ref, who); }
+        if (!(flags & TG_CMP_NOAN)) { char who[TG_ENT + 16]; snprintf(who, sizeof who, "vgroup %s", ea[i].name); tg_cmp_ann_obj(ana, anb, DFTAG_VG, (uint16)ea[i].ref, (uint16)eb[j].ref, who); }
         Vdetach(ia); Vdetach(ib);
     }
     if (!(flags & TG_CMP_NOAN)) {
@@ -1038,10 +1512,10 @@ static long tg_compare(const char *fa, const char *fb, int flags)
         /* SDS and image annotations */
         for (i = 0; i < sda.n; i++)
             for (j = 0; j < sdb.n; j++)
-                if (strcmp(sda.name[i], sdb.name[j]) == 0) { char who[96]; snprintf(who, sizeof who, "SDS %s", sda.name[i]); tg_cmp_ann_obj(ana, anb, DFTAG_NDG, (uint16)sda.ref[i], (uint16)sdb.ref[j], who); break; }
+                if (strcmp(sda.name[i], sdb.name[j]) == 0) { char who[300]; snprintf(who, sizeof who, "SDS %s", sda.name[i]); tg_cmp_ann_obj(ana, anb, DFTAG_NDG, (uint16)sda.ref[i], (uint16)sdb.ref[j], who); break; }
         for (i = 0; i < gra.n; i++)
             for (j = 0; j < grb.n; j++)
-                if (strcmp(gra.name[i], grb.name[j]) == 0) { char who[96]; snprintf(who, sizeof who, "image %s", gra.name[i]); tg_cmp_ann_obj(ana, anb, DFTAG_RIG, (uint16)gra.ref[i], (uint16)grb.ref[j], who); break; }
+                if (strcmp(gra.name[i], grb.name[j]) == 0) { char who[300]; snprintf(who, sizeof who, "image %s", gra.name[i]); tg_cmp_ann_obj(ana, anb, DFTAG_RIG, (uint16)gra.ref[i], (uint16)grb.ref[j], who); break; }
     }
     ANend(ana); ANend(anb);
     Vend(a); Vend(b);
